@@ -674,6 +674,8 @@ def vc_case(ctx, impl, logic, pre, c, post, label, lines, pending):
     # harness-side reading of the HOL terms (a mirror: an exception here is a machinery error)
     vcs_ast = [hol_to_ast(h, logic) for h in vcs_hol]
     rec.update(vcs_ast=vcs_ast, vcs_str=vcs_str)
+    LEX_STRINGS.extend(vcs_str)
+    NAMES_SEEN.update(vs)
     lines.append(key)
     pending.append(rec)
     nontriv = depth(c) >= 1 and len(vcs_str) >= 1
@@ -919,6 +921,90 @@ def model_parse_result(line, com=False):
     return ("?", line)
 
 
+LEX_STRINGS = []      # every string the implementation printed in this run, and the perturbed ones
+
+
+def real_lex(impl, text):
+    """Lark's standard lexer over all terminals of parser2's grammar: ("ok", [(kind, value) ...]) | ("err",)."""
+    try:
+        with time_limit(30):
+            toks = list(impl.parser2.com_parser.lex(text))
+    except Timeout:
+        raise
+    except Exception:  # noqa  (UnexpectedCharacters: no terminal matches)
+        return ("err",)
+    out = []
+    for t in toks:
+        if t.type == "CNAME":
+            out.append(("id", str(t)))
+        elif t.type == "INT":
+            out.append(("num", int(str(t))))
+        else:
+            out.append(("sym", str(t)))
+    return ("ok", out)
+
+
+def model_lex_result(line):
+    if line == "err":
+        return ("err",)
+    x = sexp.loads(line)
+    out = []
+    for t in x[1]:
+        out.append((t[0], int(t[1]) if t[0] == "num" else sexp.dec(t[1])))
+    return ("ok", out)
+
+
+def lexer_stage(ctx, impl):
+    """The model lexer against the real Lark lexer: token lists of every printed string (conditions, VCs,
+    programs) and of token- and character-perturbed strings; nameOK of every generated name."""
+    rng = ctx.rng("lex")
+    strings = list(dict.fromkeys(LEX_STRINGS))
+    hand = ["a-->b", "a- ->b", "a--b", "a---b", "a-- >b", "a<=b", "a< =b", "a<b", "a==b", "a= =b", "a=b", "a!=b", "a!b", "x:=1", "x:1", "x: =1",
+            "truex true iffy if thenx then elsex else skipx skip whilex while forallx forall", "a1 _a a_1 1a 007 0 12x", "a\tb\nc\r\x0cd",
+            "a.b[c]{d};e,f", "a >= b", "a > b", "a <--> b", "#", "a ? b", "", "   ", "~~a", "((", "a&|b", "if(a)then", "x1:=-1;-->", "A_B9 == zZ"]
+    chars = list("abx_19 ()-=<>!&|~:;,+*{}[].\n\t") + ["-->", "==", "<=", "true", "if"]
+    for st in strings[:ctx.scale(400, 4000)]:
+        cs = list(st)
+        for _ in range(rng.choice([1, 1, 2])):
+            i = rng.randrange(len(cs) + 1)
+            r = rng.random()
+            if r < 0.4 and cs:
+                del cs[min(i, len(cs) - 1)]
+            elif r < 0.8:
+                cs.insert(i, rng.choice(chars))
+            elif cs:
+                cs[min(i, len(cs) - 1)] = rng.choice(chars)
+        hand.append("".join(cs))
+    allstr = strings + hand
+    out = ctx.lean_driver(EXE, [sexp.dumps(["lex", sexp.enc(t)]) for t in allstr])
+    if out is None or len(out) != len(allstr):
+        ctx.broken("correspondence:c20:driver", "model driver unavailable (lexer stream)")
+        return
+    ndis = 0
+    for t, line in zip(allstr, out):
+        r, m = real_lex(impl, t), model_lex_result(line)
+        ctx.case(("lex", t), nontrivial=len(t) > 3)
+        ctx.count("lex:%s" % r[0])
+        if r != m:
+            ndis += 1
+            if ndis <= 3:
+                ctx.broken("correspondence:c20:lex", "string %r: Lark lexer %s, model %s" % (t, r, m))
+                ctx.coverage["disagreements_checked"] += 1
+    # the identifier hypothesis of lex_print / print_parse_sem, on every name the generators use
+    names = sorted(set(VARS) | {"a", "b", "c", "d", "x", "x1", "n1", "_t"} | set(NAMES_SEEN))
+    outn = ctx.lean_driver(EXE, [sexp.dumps(["nameok", sexp.enc(v)]) for v in names])
+    if outn is None or len(outn) != len(names):
+        ctx.broken("correspondence:c20:driver", "model driver unavailable (nameok)")
+        return
+    bad = [v for v, l in zip(names, outn) if l != "T"]
+    ctx.count("nameOK (hypothesis of lex_print / print_parse_sem)", len(names) - len(bad))
+    if bad:
+        ctx.broken("hypotheses:c20:names", "generated variable names outside nameOK: %s" % bad)
+
+
+NAMES_SEEN = set()
+
+
 def pp_stage(ctx, impl, logic):
     rng = ctx.rng("pp")
     n = ctx.scale(1500, 15000)
@@ -957,6 +1043,9 @@ def pp_stage(ctx, impl, logic):
             viol(ctx, "print-raise:%s" % sexp.dumps(s_expr(e)), "__str__ raised %s" % classify_exc(ex), {"kind": "pp", "expr": e})
             s = None
         strs.append(s)
+        if s is not None:
+            LEX_STRINGS.append(s)
+            NAMES_SEEN.update(vars_of(e, set()))
         lines.append(sexp.dumps(["pp", s_expr(e)]))
         lines.append(sexp.dumps(["parsecond", sexp.enc(s if s is not None else "?")]))
         lines.append(sexp.dumps(["lexpp", s_expr(e)]))
@@ -1052,6 +1141,8 @@ def com_pp_stage(ctx, impl):
             viol(ctx, "print-com-raise:%s" % sexp.dumps(s_com(c)), "print_com raised %s" % classify_exc(ex), {"kind": "compp", "com": c})
             text = None
         texts.append(text)
+        if text is not None:
+            LEX_STRINGS.append(text)
         lines.append(sexp.dumps(["ppcom", s_com(c)]))
         lines.append(sexp.dumps(["parsecom", sexp.enc(text or "?")]))
     extra = ["skip", "x := 1; y := 2; z := 3", "if (a == b) then x := 1 else x := 2; y := 3", "while (a == b) {[true] x := 1}; y := 2",
@@ -2055,7 +2146,8 @@ def run(ctx):
     for name, stage in (("eval", lambda: eval_stage(ctx)), ("interp", lambda: interp_stage(ctx)), ("pp", lambda: pp_stage(ctx, impl, logic)),
                         ("com-pp", lambda: com_pp_stage(ctx, impl)), ("vcs", lambda: vcs_stage(ctx, impl, logic)), ("sem", lambda: sem_stage(ctx)),
                         ("vcgnat", lambda: vcgnat_stage(ctx)),
-                        ("vcghol", lambda: vcghol_stage(ctx)), ("helpers", lambda: helpers_stage(ctx, impl))):
+                        ("vcghol", lambda: vcghol_stage(ctx)), ("helpers", lambda: helpers_stage(ctx, impl)),
+                        ("lexer", lambda: lexer_stage(ctx, impl))):
         stage()
         ctx.log("stage %s done (%d cases so far)" % (name, ctx.coverage["evaluations"]))
 
